@@ -592,10 +592,12 @@ func roundTrip(fr fragResult, key []byte, withPssh bool, snap func(df *mp4.Fragm
 		res.class = classOf(p, err)
 		return res
 	}
-	if p := hx.Try(func() { err = mp4.DecryptFragment(df, di, key) }); p != "" || err != nil {
+	failedDecryptFirst(res.encRaw) // hygiene.go class 3: a refused key on another decoding of the same bytes, first
+	if p, err := decryptGuarded(df, di, key); p != "" || err != nil {
 		res.class = classOf(p, err)
 		return res
 	}
+	decryptAgain(res.encRaw, key, fragBytes(df))
 	res.class = "ok"
 	return res
 }
@@ -703,6 +705,7 @@ func search(e *env, seed uint64, n int, bins string) {
 			continue
 		}
 		rt := roundTrip(fr, key, r.Intn(4) == 0, func(df *mp4.Fragment) (string, string, string, string) { return "x", "", "", "" })
+		flushHyg(wit)
 		if rt.class != "ok" {
 			fail("mp4.DecryptFragment", "roundtrip-"+rt.class, wit, "encrypt -> encode -> decode -> decrypt does not succeed")
 			continue
@@ -958,9 +961,22 @@ func fileRoundTripEnc(clearRaw []byte, scheme string, keyOwn, ivOwn []byte, npss
 			}
 		}
 	}
+	// hygiene.go class 1: the caller's key / IV buffers are overwritten BEFORE the encrypted file is written
+	scribbleBytes(key)
+	scribbleBytes(iv)
 	var eb bytes.Buffer
 	if p := hx.Try(func() { err = inF.Encode(&eb) }); p != "" || err != nil {
 		return nil, "encode-encrypted-" + classOf(p, err), nil
+	}
+	// class 3: another decoding of the encrypted file is first decrypted with a key the cipher refuses
+	if bad, err := mp4.DecodeFile(bytes.NewReader(eb.Bytes())); err == nil && bad.Init != nil {
+		_ = hx.Try(func() {
+			if di, err := mp4.DecryptInit(bad.Init); err == nil {
+				for _, sg := range bad.Segments {
+					_ = mp4.DecryptSegment(sg, di, []byte{1, 2, 3})
+				}
+			}
+		})
 	}
 	encF, err := mp4.DecodeFile(bytes.NewReader(eb.Bytes()))
 	if err != nil {
@@ -975,7 +991,13 @@ func fileRoundTripEnc(clearRaw []byte, scheme string, keyOwn, ivOwn []byte, npss
 		return nil, "encode-decrypted-init-" + classOf(p, err), eb.Bytes()
 	}
 	for _, sg := range encF.Segments {
-		if p := hx.Try(func() { err = mp4.DecryptSegment(sg, di, keyOwn) }); p != "" || err != nil {
+		keyD := owned(keyOwn)
+		p := hx.Try(func() { err = mp4.DecryptSegment(sg, di, keyD) })
+		if !ownedIntact(keyD, keyOwn) {
+			hygFail("mp4.DecryptSegment", "writes-into-argument", "DecryptSegment changed its key argument (or the bytes behind it)")
+		}
+		scribbleBytes(keyD) // before the decrypted segment is written
+		if p != "" || err != nil {
 			lastErr = fmt.Sprint(p, err)
 			return nil, "decrypt-segment-" + classOf(p, err), eb.Bytes()
 		}
@@ -1024,6 +1046,7 @@ func searchFiles(e *env, r *hx.Rng, n int) {
 			}
 		}
 		decRaw, stage, encRaw := fileRoundTripEnc(clearRaw, scheme, key, iv, fo.npssh)
+		flushHyg(wit)
 		if encRaw != nil && fo.baseVar == 0 {
 			if d := e.checkEncrypted(encRaw, samples, codec, scheme, key); d != "" {
 				fail("mp4.EncryptFragment", "file-not-encrypted-as-specified", wit, d)
